@@ -103,6 +103,9 @@ pub fn cut_outer_edge<T: CoordsFloat>(
         }
     }
     if let Some(a) = e_anchor {
+        // the second half of the cut edge is a new edge of the boundary, on the same entity
+        let eid = map.edge_id_transac(t, nd3)?;
+        map.write_attribute(t, eid, a)?;
         let vid = map.vertex_id_transac(t, nd1)?;
         map.write_attribute(t, vid, VertexAnchor::from(a))?;
     }
